@@ -60,7 +60,7 @@ Definition nested_registry (t : tx) : bool :=
 (* ---- C16: validity predicates, spelled as the property spells them ---- *)
 Definition ent_params_ok (p : ent_params) : Prop :=
   0 <= ep_denom p /\ 1 <= ep_min_accepts p /\ 1 <= ep_time_limit p /\
-  ep_signers p <> [] /\ (forall s, In s (ep_signers p) -> s <> BAD_ADDR) /\
+  ep_signers p <> [] /\ (forall s, In s (ep_signers p) -> s <> BAD_ADDR /\ s <> EMPTY_ADDR) /\
   ep_min_accepts p <= Z.of_nat (List.length (ep_signers p)).
 
 Definition reg_params_ok (p : reg_params) : Prop :=
